@@ -68,6 +68,29 @@ def bounds_names(fn):
     return mn, mx, st
 
 
+def min_param(ctx, fn):
+    """A parameter of helper `fn` that receives, at every call site, the lower bound the caller got from _get_bounds
+    (the helper was given the component instead of the pair)."""
+    P = ctx.prog
+    sites = []
+    for g_ in P.all_funcs():
+        if g_.node is fn.node:
+            continue
+        for c in calls_in(g_.node, fn.name):
+            sites.append((g_, c))
+    if not sites:
+        return None
+    for i, prm in enumerate(fn.all_params):
+        ok = True
+        for g_, c in sites:
+            lo = bounds_names(g_)[0]
+            if not (lo and i < len(c.args) and is_name(c.args[i], lo)):
+                ok = False
+        if ok:
+            return prm
+    return None
+
+
 def rel_methods(P, cls='PCBO'):
     out = {}
     for r in RELS:
@@ -649,6 +672,8 @@ def slack_guards(ctx, rid, fns):
                         for t_ in m_.targets:
                             if isinstance(t_, ast.Tuple) and len(t_.elts) == 2:
                                 mn = src(t_.elts[0])
+                if not mn:
+                    mn = min_param(ctx, fn)
                 ok = False
                 if offs and mn:
                     want = [('falsy', '%s - %s' % (mn, offs)), (mn, '==', offs), (mn, '>=', offs), (offs, '==', mn),
